@@ -249,6 +249,20 @@ def _stranded(cfg, snap, node_ok):
     return False
 
 
+@trigger('F-07b')
+def _f07b(pid, cfg, tr, v):
+    """a 'reroute' priority pre-emption at a node with a finite queue capacity: the place the victim frees is not offered to the blocked queue"""
+    pre = cfg.get('preempt') or []
+    qc = cfg.get('qcap')
+    if not qc:
+        return False
+    for e in _events(tr, frame_verdict(pid, tr, v), ('Preempt',)):
+        j = e[1] - 1
+        if j < len(pre) and pre[j] == 'reroute' and qc[j] != 'inf':
+            return True
+    return False
+
+
 @trigger('F-12a')
 def _f12a(pid, cfg, tr, v):
     """a customer attached to a server that its node has retired, at a node with a 'reroute' Schedule (rerouted into the same node)"""
